@@ -1,4 +1,5 @@
 import MemcVerif.Proofs.Policy
+import MemcVerif.Proofs.WF
 /-!
 # C15 — no eviction without memory pressure (accounting tracks content)
 
@@ -6,8 +7,9 @@ The full statement is **false** of the code and of the model: the witnesses belo
 are the recorded findings, one per drift class. Each is a concrete history in which the stored bytes stay
 far below the limit while the accounted usage drifts away from them; `C15_drift_evicts_live_key` shows the
 user-visible consequence (an unrelated live key is evicted although 68 bytes are stored under a limit of
-1000). `C15_partial` is the part that holds: fresh-key stores without pressure, and reads of live keys,
-keep the accounting exact.
+1000). `C15_partial_*` is the part that holds: fresh-key stores without pressure, deletes, and reads of live or
+absent keys keep the accounting exact (`C15_partial_history`: for every history made of those, of any length, the
+counter is a function of the content, nothing else is lost, and the counter is 0 whenever the store is empty).
 -/
 namespace Memc
 
@@ -121,6 +123,167 @@ theorem C15_partial_live_get (p : Policy) (now : Nat) (k : Key) (x : Record) (h 
   simp only [hv]
   constructor <;> trivial
 
+/-- a delete gives back exactly what it removes -/
+theorem C15_partial_delete (p : Policy) (k : Key) (cas : Nat) (hex : p.Exact) (hwf : p.inner.mem.WF) (hlt : p.usage < U64) :
+    (p.delete k cas).1.Exact ∧ (p.delete k cas).1.bad = p.bad ∧ (p.delete k cas).1.tape = p.tape ∧
+    (p.delete k cas).1.limit = p.limit ∧ (p.delete k cas).1.usage ≤ p.usage ∧
+    ∀ k', k' ≠ k → (p.delete k cas).1.inner.mem.lookup k' = p.inner.mem.lookup k' := by
+  unfold Policy.delete Policy.Exact at *
+  cases hl : p.inner.mem.lookup k with
+  | none => rw [MemStore.delete_absent _ _ _ hl]; exact ⟨hex, by trivial, by trivial, by trivial, Nat.le_refl _, fun _ _ => rfl⟩
+  | some r =>
+    by_cases h : cas = 0 ∨ r.header.cas = cas
+    · rw [MemStore.delete_ok _ _ _ r hl h]
+      have hfree := Mem.bytes_erase_exact p.inner.mem k r hwf hl
+      have hle : r.len ≤ p.usage := by omega
+      simp only [wsub_exact hle hlt]
+      refine ⟨?_, by trivial, by trivial, by trivial, ?_, fun k' hne => Mem.lookup_erase_ne _ hne⟩
+      · show p.usage - r.len = (p.inner.mem.erase k).bytes
+        omega
+      · show p.usage - r.len ≤ p.usage
+        omega
+    · rw [MemStore.delete_mismatch _ _ _ r hl h]; exact ⟨hex, by trivial, by trivial, by trivial, Nat.le_refl _, fun _ _ => rfl⟩
+
+/-- the commands that cannot make the accounting drift -/
+inductive POp
+  | set (k : Key) (r : Record)
+  | get (k : Key)
+  | delete (k : Key) (cas : Nat)
+
+def POp.key : POp → Key
+  | .set k _ | .get k | .delete k _ => k
+
+def Policy.apply (p : Policy) (now : Nat) : POp → Policy
+  | .set k r => (p.set now k r).1
+  | .get k => (p.get now k).1
+  | .delete k cas => (p.delete k cas).1
+
+/-- no memory pressure and nothing that bypasses the accounting: the store is of a fresh key with CAS 0 and fits
+    under the limit; the read is of a live or an absent key; deletes are unrestricted -/
+def Policy.driftFree (p : Policy) (now : Nat) : POp → Bool
+  | .set k r => p.inner.mem.lookup k == none && r.header.cas == 0 && decide (p.usage + r.len ≤ p.limit)
+  | .get k => (p.inner.vis now k).isSome || p.inner.mem.lookup k == none
+  | .delete _ _ => true
+
+def Policy.driftFreeRun (p : Policy) : List (Nat × POp) → Bool
+  | [] => true
+  | (now, op) :: rest => p.driftFree now op && (p.apply now op).driftFreeRun rest
+
+def Policy.runP (p : Policy) : List (Nat × POp) → Policy
+  | [] => p
+  | (now, op) :: rest => (p.apply now op).runP rest
+
+/-- what is carried along a drift-free history -/
+structure Policy.Good (p : Policy) : Prop where
+  exact : p.Exact
+  wf : p.inner.mem.WF
+  tape : p.tape = []
+  room : p.usage ≤ p.limit
+  lt : p.limit < U64
+
+theorem get_absent_noop (s : MemStore) (now : Nat) (k : Key) (h : s.mem.lookup k = none) : (s.get now k).1 = s := by
+  unfold MemStore.get MemStore.getByKey
+  simp [h]
+
+/-- with room and no victims on the tape a store is the inner store's `set` plus the counter -/
+theorem set_roomy (p : Policy) (now : Nat) (k : Key) (r : Record)
+    (hroom : p.usage + r.len ≤ p.limit) (hnw : p.usage + r.len < U64) (htape : p.tape = []) :
+    (p.set now k r).1 = { p with usage := p.usage + r.len, inner := (p.inner.set now k r).1 } := by
+  obtain ⟨inner, usage, limit, tape, bad⟩ := p
+  simp only at hroom hnw htape
+  subst htape
+  have hadd : wadd usage r.len = usage + r.len := wadd_exact hnw
+  have hng : ¬ (wadd usage r.len > limit) := by omega
+  show (⟨((Policy.evictLoop r.len [] ⟨inner, wadd usage r.len, limit, [], bad⟩ (wadd usage r.len)).inner.set now k r).1,
+      (Policy.evictLoop r.len [] ⟨inner, wadd usage r.len, limit, [], bad⟩ (wadd usage r.len)).usage,
+      (Policy.evictLoop r.len [] ⟨inner, wadd usage r.len, limit, [], bad⟩ (wadd usage r.len)).limit,
+      (Policy.evictLoop r.len [] ⟨inner, wadd usage r.len, limit, [], bad⟩ (wadd usage r.len)).tape,
+      (Policy.evictLoop r.len [] ⟨inner, wadd usage r.len, limit, [], bad⟩ (wadd usage r.len)).bad⟩ : Policy) = _
+  unfold Policy.evictLoop
+  simp only [hng, if_false]
+  simp [hadd]
+
+theorem C15_partial_step (p : Policy) (now : Nat) (op : POp) (hg : p.Good) (hd : p.driftFree now op = true) :
+    (p.apply now op).Good ∧ (p.apply now op).bad = p.bad ∧ (p.apply now op).limit = p.limit ∧
+    ∀ k', k' ≠ op.key → (p.apply now op).inner.mem.lookup k' = p.inner.mem.lookup k' := by
+  cases op with
+  | set k r =>
+    simp only [Policy.driftFree, Bool.and_eq_true, beq_iff_eq, decide_eq_true_eq] at hd
+    obtain ⟨⟨habs, hcas⟩, hroom⟩ := hd
+    have hnw : p.usage + r.len < U64 := by have := hg.lt; omega
+    obtain ⟨h1, h2, h3⟩ := C15_partial_fresh_store p now k r hg.exact habs hcas hroom hnw hg.tape
+    have hs := set_roomy p now k r hroom hnw hg.tape
+    refine ⟨⟨h1, ?_, ?_, ?_, ?_⟩, ?_, ?_, h3⟩
+    · show (p.set now k r).1.inner.mem.WF
+      rw [hs]; exact MemStore.WF_set _ _ _ _ hg.wf
+    · show (p.set now k r).1.tape = []
+      rw [hs]; exact hg.tape
+    · show (p.set now k r).1.usage ≤ (p.set now k r).1.limit
+      rw [hs]; exact hroom
+    · show (p.set now k r).1.limit < U64
+      rw [hs]; exact hg.lt
+    · show (p.set now k r).1.bad = p.bad
+      rw [hs]
+    · show (p.set now k r).1.limit = p.limit
+      rw [hs]
+  | get k =>
+    have hsame : (p.get now k).1 = p := by
+      simp only [Policy.driftFree, Bool.or_eq_true, beq_iff_eq, Option.isSome_iff_exists] at hd
+      rcases hd with ⟨x, hx⟩ | habs
+      · exact (C15_partial_live_get p now k x hx).1
+      · unfold Policy.get
+        simp only [get_absent_noop p.inner now k habs]
+    show (p.get now k).1.Good ∧ (p.get now k).1.bad = p.bad ∧ (p.get now k).1.limit = p.limit ∧ _
+    rw [hsame]
+    exact ⟨hg, rfl, rfl, fun _ _ => by show (p.get now k).1.inner.mem.lookup _ = _; rw [hsame]⟩
+  | delete k cas =>
+    have hlt : p.usage < U64 := by have := hg.lt; have := hg.room; omega
+    obtain ⟨h1, h2, h3, h5, h6, h4⟩ := C15_partial_delete p k cas hg.exact hg.wf hlt
+    have hin : (p.delete k cas).1.inner = (p.inner.delete k cas).1 := by
+      unfold Policy.delete
+      cases hres : (p.inner.delete k cas).2 <;> simp only [hres]
+    refine ⟨⟨h1, ?_, ?_, ?_, ?_⟩, h2, h5, h4⟩
+    · show (p.delete k cas).1.inner.mem.WF
+      rw [hin]; exact MemStore.WF_delete _ _ _ hg.wf
+    · show (p.delete k cas).1.tape = []
+      rw [h3]; exact hg.tape
+    · show (p.delete k cas).1.usage ≤ (p.delete k cas).1.limit
+      rw [h5]; exact Nat.le_trans h6 hg.room
+    · show (p.delete k cas).1.limit < U64
+      rw [h5]; exact hg.lt
+
+/-- **C15, the part that holds**: along every history of stores of fresh keys that fit, deletes and reads of live or
+    absent keys — of any length, at any clock readings — the counter equals the bytes stored, nothing is evicted,
+    and keys the history does not address keep their records -/
+theorem C15_partial_history (p : Policy) (h : List (Nat × POp)) (hg : p.Good) (hd : p.driftFreeRun h = true) :
+    (p.runP h).Good ∧ (p.runP h).bad = p.bad ∧
+    ∀ k', (∀ e ∈ h, e.2.key ≠ k') → (p.runP h).inner.mem.lookup k' = p.inner.mem.lookup k' := by
+  induction h generalizing p with
+  | nil => exact ⟨hg, rfl, fun _ _ => rfl⟩
+  | cons e rest ih =>
+    obtain ⟨now, op⟩ := e
+    simp only [Policy.driftFreeRun, Bool.and_eq_true] at hd
+    obtain ⟨hd1, hd2⟩ := hd
+    obtain ⟨g1, b1, _, l1⟩ := C15_partial_step p now op hg hd1
+    obtain ⟨g2, b2, l2⟩ := ih (p.apply now op) g1 hd2
+    refine ⟨g2, by rw [← b1]; exact b2, fun k' hk' => ?_⟩
+    have h1 : op.key ≠ k' := hk' (now, op) (List.mem_cons_self ..)
+    show ((p.apply now op).runP rest).inner.mem.lookup k' = _
+    rw [l2 k' (fun e he => hk' e (List.mem_cons_of_mem _ he)), l1 k' (fun h => h1 h.symm)]
+
+/-- "returns to its initial value whenever the store returns to empty" — along drift-free histories -/
+theorem C15_partial_empty_means_zero (p : Policy) (h : List (Nat × POp)) (hg : p.Good) (hd : p.driftFreeRun h = true)
+    (hempty : (p.runP h).inner.mem = []) : (p.runP h).usage = 0 := by
+  have := (C15_partial_history p h hg hd).1.exact
+  unfold Policy.Exact at this
+  rw [this, hempty]; rfl
+
+/-- the premises are met: an empty policy is `Good`, and a store / read / delete / store history is drift-free -/
+example : (Policy.init 1000).Good ∧
+    (Policy.init 1000).driftFreeRun [(0, .set [1] rec10), (1, .get [1]), (2, .get [9]), (3, .delete [1] 0), (4, .set [1] rec10)] = true := by
+  refine ⟨⟨rfl, trivial, rfl, by decide, by decide⟩, ?_⟩
+  decide
+
 end Memc
 
 #print axioms Memc.C15_overwrite_drifts
@@ -132,3 +295,9 @@ end Memc
 #print axioms Memc.Mem.erase_absent
 #print axioms Memc.C15_partial_fresh_store
 #print axioms Memc.C15_partial_live_get
+#print axioms Memc.C15_partial_delete
+#print axioms Memc.get_absent_noop
+#print axioms Memc.set_roomy
+#print axioms Memc.C15_partial_step
+#print axioms Memc.C15_partial_history
+#print axioms Memc.C15_partial_empty_means_zero
